@@ -140,6 +140,8 @@ def load_job_payload(job: Dict[str, Any], work: Path):
                 gens.append(adv.Adversary(job["seed"] * 7 + k, label=f"Adversary{k}", p_instr=job.get("p_instr", 0.3), kinds=job.get("kinds")))
             elif part == "counter":
                 gens.append(adv.CountingGenerator())
+            elif part == "dice":
+                gens.append(adv.DiceGenerator())
             elif part == "plan":
                 gens.append(adv.FixedPlan(job["seed"] * 7 + k))
             elif part == "charge":
@@ -152,6 +154,8 @@ def load_job_payload(job: Dict[str, Any], work: Path):
 
                 gens += [Dispatcher(rp.e.config.dispatcher), ChargingFleetManager(rp.e.config.dispatcher)]
         rp = runs.set_generators(rp, gens)
+        if "dice" in mix.split("+"):
+            random.seed(job["seed"])      # the user seeds the global stream once, after loading
     if job.get("throttle"):
         # a co-simulation user has throttled some plugs (station-local charger rates differ from the factory rates)
         import random as _r
